@@ -10,6 +10,7 @@ import (
 
 	"golang.org/x/tools/go/types/typeutil"
 
+	"verif/checker/internal/gen"
 	"verif/checker/internal/interp"
 	"verif/checker/internal/load"
 )
@@ -148,12 +149,22 @@ func kIface(id string, methodSigs []ktype, embedded []ktype) ktype {
 		fs = append(fs, f)
 		sq.Elems = append(sq.Elems, f)
 	}
+	all := append([]interp.Value{}, fs...)
+	allSeq := &interp.Seq{Elems: append([]interp.Value{}, sq.Elems...)}
+	if len(embedded) > 0 {
+		inh := kSig(id+".inherited", []ktype{kLeaf("hidden")}, nil)
+		f := &interp.Opaque{Kind: "types.Func", ID: id + ".inherited.m", GoType: "*go/types.Func", Methods: mmap{"Type": tmeth(inh), "Name": tmeth(interp.Lit("Inherited")), "Signature": tmeth(inh)}}
+		all = append(all, f)
+		allSeq.Elems = append(allSeq.Elems, f)
+	}
 	t := &interp.Opaque{Kind: "types.Type", ID: id, GoType: "*go/types.Interface"}
 	t.Methods = mmap{
 		"NumExplicitMethods": tmeth(int64(len(fs))), "ExplicitMethod": indexed("Interface.ExplicitMethod", fs), "ExplicitMethods": tmeth(sq),
 		"NumEmbeddeds": tmeth(int64(len(embedded))), "EmbeddedType": indexed("Interface.EmbeddedType", vals(embedded)), "EmbeddedTypes": tmeth(seqOfT(embedded)),
-		// the complete method set also holds the methods of the embedded interfaces; the printer prints the explicit ones
-		"NumMethods": tmeth(int64(len(fs))), "Method": indexed("Interface.Method", fs), "Methods": tmeth(sq),
+		// the complete method set also holds the methods of the embedded interfaces; the printer prints the
+		// explicit ones only: when something is embedded, one inherited method whose signature mentions a
+		// package printed nowhere
+		"NumMethods": tmeth(int64(len(all))), "Method": indexed("Interface.Method", all), "Methods": tmeth(allSeq),
 		"Underlying": tmeth(t), "Complete": tmeth(t), "Empty": tmeth(len(fs) == 0 && len(embedded) == 0),
 	}
 	return t
@@ -190,6 +201,13 @@ func kindCases() []kcase {
 	aobj := &interp.Opaque{Kind: "types.TypeName", ID: "alias.obj", GoType: "*go/types.TypeName", Methods: mmap{"Pkg": tmeth(pkgOpaque(kpath("ka"), "ka")), "Name": tmeth(interp.Lit("A"))}}
 	alias.Methods = mmap{"Obj": tmeth(aobj), "Rhs": tmeth(hidden), "Underlying": tmeth(kStruct("alias.u", []ktype{hidden})), "TypeParams": tmeth(interp.NilV{}),
 		"TypeArgs": tmeth(&interp.Opaque{Kind: "types.TypeList", ID: "alias.targs", GoType: "*go/types.TypeList", Methods: mmap{"Len": tmeth(int64(2)), "At": indexed("TypeList.At", []interp.Value{b, c}), "Types": tmeth(seqOfT([]ktype{b, c}))}})}
+	// two instantiations of one generic type: as in go/types they share the object (and the origin)
+	h1 := kNamedIn(kpath("ka"), "ka", "H", []ktype{b}, nil)
+	h2 := kNamedIn(kpath("ka"), "ka", "H", []ktype{c}, nil)
+	h2.ID = "H#2"
+	h2.Methods["Obj"] = h1.Methods["Obj"]
+	h1.Methods["Origin"] = tmeth(h1)
+	h2.Methods["Origin"] = tmeth(h1)
 	return []kcase{
 		{"int", basic("int", types.Int), nil},
 		{"unsafe.Pointer", basic("Pointer", types.UnsafePointer), []string{"unsafe"}},
@@ -205,6 +223,9 @@ func kindCases() []kcase {
 		{"ka.G[kb.T, kc.T] (its underlying type and the constraint of its type parameter mention another package)", generic, p("ka", "kb", "kc")},
 		{"map[ka.T]ka.H[kb.T] (the same package twice, the second time with a type argument)", &interp.Opaque{Kind: "types.Type", ID: "map3", GoType: "*go/types.Map", Methods: mmap{"Key": tmeth(a), "Elem": tmeth(kNamedIn(kpath("ka"), "ka", "H", []ktype{b}, nil))}}, p("ka", "kb")},
 		{"struct{ka.T; ka.T; kb.T} (a package mentioned twice)", kStruct("struct2", []ktype{a, a, b}), p("ka", "kb")},
+		{"func(ka.H[kb.T]) ka.H[kc.T] (one generic type instantiated twice)", kSig("sig2", []ktype{h1}, []ktype{h2}), p("ka", "kb", "kc")},
+		{"func(map[ka.T]kb.T, kc.T) kd.T (a type of several components followed by siblings)", kSig("sig3", []ktype{&interp.Opaque{Kind: "types.Type", ID: "map5", GoType: "*go/types.Map", Methods: mmap{"Key": tmeth(a), "Elem": tmeth(b)}}, c}, []ktype{d}), p("ka", "kb", "kc", "kd")},
+		{"struct{f0 func(ka.T, kb.T) kc.T; f1 kd.T; f2 ke.T} (nested lists followed by siblings)", kStruct("struct3", []ktype{kSig("sig4", []ktype{a, b}, []ktype{c}), d, e}), p("ka", "kb", "kc", "kd", "ke")},
 		{"ka.T", a, p("ka")},
 		{"error (a named type of no package)", kNamedIn("", "", "error", nil, nil), nil},
 		{"alias ka.A[kb.T, kc.T] of a type from another package", alias, p("ka", "kb", "kc")},
@@ -279,6 +300,9 @@ func walkerFunc(prog *load.Program) *types.Func {
 
 func kindsTable(c *Ctx) {
 	run, prog := c.Run, c.Prog
+	// what the table cannot see: the interpreter copies on append, so an element overwritten through a
+	// shared array (a level of the walk built in the array of the level being read) needs its own rule
+	gen.CheckResliceAppend(run, prog)
 	pos := "internal/registry/method_scope.go"
 	if fn := prog.LookupFunc(load.PkgRegistry, "MethodScope.AddVar"); fn != nil {
 		pos = prog.Pos(fn.Pos())
